@@ -100,6 +100,15 @@ class Fuzz:
     def close(self) -> None:
         self.env.close()
 
+    def sample(self, part: str, what: dict) -> None:
+        """up to two written-out cases per part of the workload"""
+        seen = getattr(self, '_sampled', None)
+        if seen is None:
+            seen = self._sampled = {}
+        if seen.get(part, 0) < 2:
+            seen[part] = seen.get(part, 0) + 1
+            self.res.samples.append(what)
+
     # ------------------------------------------------------------------ one guarded request
     def request(self, method: str, url: str, part: str, label: str, replay: dict, client=None, **kw):
         """-> response or None; records violations for 5xx / non-termination"""
@@ -133,6 +142,7 @@ class Fuzz:
                     res.notes.append(f'slow but terminating: {url}')
             return None
         r = value
+        self.sample(part, {'part': part, 'label': label, 'request': f'{method} {url}'[:300], 'status': r.status_code})
         if r.status_code >= 500:
             info = env.rec.last_exception
             if info and 'asgiref' in info.get('repr', '') or (info and "'async' extra" in info.get('repr', '')):
@@ -435,6 +445,8 @@ class Fuzz:
             res.violation('parser-unbounded-allocation',
                           f'{cname} {op} lazy={lazy}: {peak} bytes traced for a {len(mutated)} byte input', rp)
         res.case(f'B|parser|{cname}|{op.split("@")[0]}|{"lazy" if lazy else "eager"}|{cls}')
+        self.sample('b-parser', {'part': 'b', 'corpus': cname, 'operator': op, 'lazy': lazy, 'bytes': len(mutated),
+                                 'outcome': cls})
 
     @staticmethod
     def _catch(fn):
@@ -516,6 +528,7 @@ class Fuzz:
                 addressed = nn == target or (rp['c'].get('two_positions') and nn == others[0])
                 seq.append((addressed, r.status_code, url, nn))
             self.judge_media(seq, code, failures, rp, kind)
+            self.sample('c', {'part': 'c', 'spec': rp['c'], 'sequence': [(a, st) for a, st, *_ in seq]})
             res.case(f'C|{kind}|{code}|f{failures}|{"two" if rp["c"].get("two_positions") else "one"}')
             if i % 20 == 0 and ctx.out_of_time():
                 break
@@ -685,6 +698,9 @@ def part_d(ctx: ShardCtx, res: ShardResult) -> None:
             res.evaluations += 1
             status = r.status_code
             res.case(f'D|{op["name"]}|{what.split(" := ")[0][:40]}|{status // 100}xx')
+            if len([x for x in res.samples if x.get('part') == 'd']) < 2:
+                res.samples.append({'part': 'd', 'operation': op['name'], 'request': f'{op["method"]} {op["url"]}',
+                                    'mutation': what, 'role': role, 'status': status})
             if status >= 500:
                 info = w.env.rec.last_exception or {}
                 res.violation(f'5xx-{info.get("type", "unknown")}-in-{exc_site(info)}-management-{op["name"]}',
